@@ -86,6 +86,8 @@ inductive LEvent
   | deposed                                       -- a follower answered with a newer term
   | hb (peer : Nat) (a : HbAnswer)                -- the heartbeat now in the network is answered
   | rpc (e : Event)                               -- a request from another server
+  | heartbeatTimeout                              -- the follower loop's timer fires without recent contact
+  | idle                                          -- time passes and nothing is due
 deriving Repr
 
 /-! ## pieces -/
@@ -324,6 +326,19 @@ def callStep (cf : Cfg) (a : Acc) (cs : List (Nat × Call)) (failAt : Option Nat
     | .verify => verifyCall a p.1
     | _ => a) a1
 
+/-! ## the follower loop (raft.go: `runFollower`) -/
+
+/-- the heartbeat timer fires and there has been no contact for a heartbeat timeout: the leader is
+    forgotten; the server becomes a candidate only if it knows a configuration in which it has a
+    vote (a non-voter, a server that is in no configuration, and a server without any configuration
+    stay followers however often the timer fires) -/
+def followerTimeout (v : Vol) : Vol :=
+  let v1 : Vol := { v with leader := 0, leaderId := 0 }
+  if v.latestIdx = 0 then v1
+  else if v.latestIdx = v.committedIdx ∧ ¬ hasVote v.latest selfId then v1
+  else if hasVote v.latest selfId then { v1 with role := .candidate }
+  else v1
+
 /-! ## the step -/
 
 def accOf (w : World) (l : Lead) : Acc := ⟨w.d, w.v, l, [], [], [], false⟩
@@ -353,8 +368,17 @@ def stepLeader (lw : LWorld) (e : LEvent) : LWorld × LObs :=
   | none, .rpc ev =>
     let r := stepEvent lw.w ev
     (⟨r.1, none⟩, ⟨r.2, []⟩)
+  | none, .heartbeatTimeout =>
+    if lw.w.v.role ≠ .follower then (lw, idleObs lw.w) else
+    let v' := followerTimeout lw.w.v
+    (⟨{ lw.w with v := v' }, none⟩, ⟨⟨false, false, .none, [], v', lw.w.d, []⟩, []⟩)
+  | none, .calls cs _ =>
+    -- the follower and candidate loops refuse every call that needs a leader
+    (lw, ⟨(idleObs lw.w).obs, cs.map (fun c => (c.1, Outcome.notLeader))⟩)
   | none, _ => (lw, idleObs lw.w)
   | some _, .start => (lw, idleObs lw.w)
+  | some _, .heartbeatTimeout => (lw, idleObs lw.w)
+  | some _, .idle => (lw, idleObs lw.w)
   | some l, .calls cs failAt => finish lw (callStep lw.w.cf (accOf lw.w l) cs failAt)
   | some l, .ack peer idx =>
     finish lw (settleAll lw.w.cf { accOf lw.w l with lead := { l with cm := CM.matchOp l.cm peer idx } })
